@@ -29,12 +29,31 @@ def strip_casts(n):
             return n
 
 
-def nf(n, casts=False, alias=None):
+class Resolver:
+    """maps immutable, singly-defined `let` locals of one function to their initialisers, so that normal forms do not
+    depend on the names of such locals"""
+
+    def __init__(self, fn):
+        self.defs = {}
+        for x in hirq.walk(fn["hir"]):
+            if x["k"] == "Let" and "init" in x and x["pat"]["k"] == "Bind" and "Mut" not in x["pat"].get("mode", "") and "sub" not in x["pat"]:
+                self.defs[x["pat"]["id"]] = x["init"]
+
+    def lookup(self, lid):
+        return self.defs.get(lid)
+
+
+def nf(n, casts=False, alias=None, res=None, _depth=0):
     """canonical string of an expression; locals by name; refs/derefs/clones dropped.
-    casts=True also drops `as` casts. alias: dict field name -> canonical field name"""
+    casts=True also drops `as` casts. alias: dict field name -> canonical field name.
+    res: a Resolver; immutable single-definition locals are replaced by their definition"""
     n = strip_casts(n) if casts else strip(n)
     k = n["k"]
-    r = lambda x: nf(x, casts, alias)
+    if res is not None and k == "Path" and "local" in n["res"] and _depth < 8:
+        d = res.lookup(n["res"]["local"])
+        if d is not None:
+            return nf(d, casts, alias, res, _depth + 1)
+    r = lambda x: nf(x, casts, alias, res, _depth)
     if k == "Lit":
         v = n["v"]
         if n.get("lk") == "float":
@@ -114,29 +133,33 @@ def nf(n, casts=False, alias=None):
 FLIP = {"<": ">=", "<=": ">", ">": "<=", ">=": "<", "==": "!=", "!=": "=="}
 
 
-def atoms(cond, polarity=True, casts=True):
+def atoms(cond, polarity=True, casts=True, res=None):
     """facts known to hold when `cond` evaluates to `polarity`.
     returns a list of items, each either ('cmp', lhs_nf, op, rhs_nf) with op in < <= == != (others
     normalised by swapping), ('truth', nf, bool) for opaque boolean expressions, or
     ('or', [alt1_items, alt2_items...]) for disjunctions."""
     n = strip(cond)
     k = n["k"]
+    if res is not None and k == "Path" and "local" in n["res"]:
+        d = res.lookup(n["res"]["local"])
+        if d is not None:
+            return atoms(d, polarity, casts, res)
     if k == "Unary" and n["op"] == "!":
-        return atoms(n["e"], not polarity, casts)
+        return atoms(n["e"], not polarity, casts, res)
     if k == "Binary":
         op = n["op"]
         if op == "&&":
             if polarity:
-                return atoms(n["l"], True, casts) + atoms(n["r"], True, casts)
-            return [("or", [atoms(n["l"], False, casts), atoms(n["r"], False, casts)])]
+                return atoms(n["l"], True, casts, res) + atoms(n["r"], True, casts, res)
+            return [("or", [atoms(n["l"], False, casts, res), atoms(n["r"], False, casts, res)])]
         if op == "||":
             if polarity:
-                return [("or", [atoms(n["l"], True, casts), atoms(n["r"], True, casts)])]
-            return atoms(n["l"], False, casts) + atoms(n["r"], False, casts)
+                return [("or", [atoms(n["l"], True, casts, res), atoms(n["r"], True, casts, res)])]
+            return atoms(n["l"], False, casts, res) + atoms(n["r"], False, casts, res)
         if op in FLIP:
             if not polarity:
                 op = FLIP[op]
-            a, b = nf(n["l"], casts), nf(n["r"], casts)
+            a, b = nf(n["l"], casts, res=res), nf(n["r"], casts, res=res)
             if op == ">":
                 op, a, b = "<", b, a
             elif op == ">=":
@@ -144,15 +167,15 @@ def atoms(cond, polarity=True, casts=True):
             elif op in ("==", "!=") and b < a:
                 a, b = b, a
             return [("cmp", a, op, b)]
-    return [("truth", nf(n, casts), polarity)]
+    return [("truth", nf(n, casts, res=res), polarity)]
 
 
-def all_conditions(tree, node, stop=None):
+def all_conditions(tree, node, stop=None, res=None):
     """facts holding at `node` from every enclosing If (innermost first)"""
     out = []
     for (c, pol) in tree.conditions(node, stop):
         if isinstance(pol, bool):
-            out.extend(atoms(c, pol))
+            out.extend(atoms(c, pol, res=res))
     return out
 
 
